@@ -49,7 +49,7 @@ pub fn shape_programs() -> Vec<(&'static str, Prog)> {
 }
 
 #[derive(Clone, Copy, PartialEq, Eq, Debug)]
-pub enum Slice { Wf, Viol, All, WfOrViol, WfOrPanic, WfOrMulti }
+pub enum Slice { Wf, Viol, All, WfOrViol, WfOrPanic, WfOrMulti, WfOrViolOrPanic }
 
 fn in_slice(class: &Class, slice: Slice) -> bool {
   let f = &class.flags;
@@ -57,6 +57,7 @@ fn in_slice(class: &Class, slice: Slice) -> bool {
   match slice {
     Slice::Wf => class.wf(),
     Slice::WfOrPanic => { let mut g = *f; g.task_panic = false; !g.any() }
+    Slice::WfOrViolOrPanic => !(f.read_before_generate || f.self_conflict || f.multi_dep),
     Slice::WfOrMulti => { let mut g = *f; g.multi_dep = false; !g.any() }
     Slice::Viol => !excluded && f.any_violation(),
     Slice::WfOrViol | Slice::All => !excluded,
@@ -70,7 +71,7 @@ pub fn programs_for(cfgs: &[EnumCfg], slice: Slice, with_shapes: bool, extra_fil
   if with_shapes {
     for (_, p) in shape_programs() {
       let c = classify(&p);
-      let ok = if p.bodies.iter().flatten().any(|s| s.op == Op::Panic) && slice != Slice::WfOrPanic { false } else { in_slice(&c, slice) };
+      let ok = if p.bodies.iter().flatten().any(|s| s.op == Op::Panic) && slice != Slice::WfOrPanic && slice != Slice::WfOrViolOrPanic { false } else { in_slice(&c, slice) };
       if ok && extra_filter(&p) && seen.insert(p.clone()) { out.push((p, c)); }
     }
   }
@@ -129,7 +130,7 @@ fn reads_something(p: &Prog) -> bool { has_op(p, |o| matches!(o, Op::Read(..))) 
 
 /// One group of programs explored to one history depth.
 #[derive(Clone, Debug)]
-pub struct Group { pub enums: Vec<EnumCfg>, pub depth: usize, pub shapes: bool, pub gen_consumer_only: bool, pub crashes: usize, pub inject: bool }
+pub struct Group { pub enums: Vec<EnumCfg>, pub depth: usize, pub shapes: bool, pub gen_consumer_only: bool, pub crashes: usize, pub inject: bool, pub max_roots: Option<usize>, pub faulty: bool }
 
 /// Some task writes a resource that a different task reads (generator/consumer structure).
 pub fn gen_consumer(p: &Prog) -> bool {
@@ -158,7 +159,7 @@ pub fn run(args: &Args) -> i32 {
   let mut cfg = HistCfg {
     prop, max_roots: 2, bottom_up: true, bu_then: false, bu_pre: false, bu_over_report: false, set_fail: false, crashes: 0,
     depth: 0, state_cap: 0, probe: false, scope_in_key: true,
-    wall_cap: if quick { 45.0 } else { 1500.0 }, collect_digests: false,
+    wall_cap: if quick { 45.0 } else { 1500.0 }, collect_digests: false, find_path_hash: None,
   };
   let mut slice = Slice::Wf;
   let mut map_faulty = false;
@@ -178,20 +179,29 @@ pub fn run(args: &Args) -> i32 {
   // `nw`: require-structure family: no writes, every require with pie's AlwaysConsistent (so `acc` stays what was
   // read), guards only `== 1`: cheap enough to reach 3-4 tasks with 4-5 statements (value-dependent require shapes).
   let nw = |n: usize, r: u8, k: usize| { let mut e = EnumCfg::structural(n, r, k); e.ocs = vec![OC::PieAlways]; e.srcs = vec![]; e.guard_vals = vec![1]; e };
+  // `sf`: scheduled-set family: every task first reads r0 (so a change of r0 schedules all of them at once), plus K
+  // require statements in total (optionally guarded by `== 1`): shapes of the bottom-up queue with 3-4 tasks
+  // (independent tasks, chains, diamonds, tasks that change their requires while re-executing).
+  let sf = |n: usize, k: usize| {
+    let mut e = EnumCfg::structural(n, 1, k);
+    e.ocs = vec![OC::Equals, OC::PieAlways]; e.srcs = vec![]; e.guard_vals = vec![1];
+    e.mandatory_first = Some(Op::Read(0, RC::Exact));
+    e
+  };
   // `cw`: generator/consumer programs with coarse (existence-only) write checkers as well.
   let cw = |n: usize, r: u8, k: usize| { let mut e = EnumCfg::structural(n, r, k); e.ocs = vec![OC::Equals, OC::PieAlways]; e.write_rcs = vec![RC::Exact, RC::Exists]; e };
   let mut groups: Vec<Group> = if quick {
     vec![
-      Group { enums: vec![s(2, 2, 3)], depth: 5, shapes: true, gen_consumer_only: false, crashes: 0, inject: false },
-      Group { enums: vec![s(3, 2, 2), rich(2, 2, 2)], depth: 4, shapes: false, gen_consumer_only: false, crashes: 0, inject: false },
+      Group { enums: vec![s(2, 2, 3)], depth: 5, shapes: true, gen_consumer_only: false, crashes: 0, inject: false, max_roots: None, faulty: false },
+      Group { enums: vec![s(3, 2, 2), rich(2, 2, 2)], depth: 4, shapes: false, gen_consumer_only: false, crashes: 0, inject: false, max_roots: None, faulty: false },
       // generator/consumer programs one statement larger (conditional generators with an always-consistent require)
-      Group { enums: vec![s(2, 2, 4)], depth: 4, shapes: false, gen_consumer_only: true, crashes: 0, inject: false },
+      Group { enums: vec![s(2, 2, 4)], depth: 4, shapes: false, gen_consumer_only: true, crashes: 0, inject: false, max_roots: None, faulty: false },
     ]
   } else {
     vec![
-      Group { enums: vec![s(2, 2, 4), rich(2, 2, 3)], depth: 6, shapes: true, gen_consumer_only: false, crashes: 0, inject: false },
-      Group { enums: vec![s(3, 2, 3), s(3, 3, 3)], depth: 5, shapes: false, gen_consumer_only: false, crashes: 0, inject: false },
-      Group { enums: vec![s(4, 2, 3)], depth: 4, shapes: false, gen_consumer_only: false, crashes: 0, inject: false },
+      Group { enums: vec![s(2, 2, 4), rich(2, 2, 3)], depth: 6, shapes: true, gen_consumer_only: false, crashes: 0, inject: false, max_roots: None, faulty: false },
+      Group { enums: vec![s(3, 2, 3), s(3, 3, 3)], depth: 5, shapes: false, gen_consumer_only: false, crashes: 0, inject: false, max_roots: None, faulty: false },
+      Group { enums: vec![s(4, 2, 3)], depth: 4, shapes: false, gen_consumer_only: false, crashes: 0, inject: false, max_roots: None, faulty: false },
     ]
   };
   let filter: Box<dyn Fn(&Prog) -> bool> = Box::new(|p| reads_something(p));
@@ -201,18 +211,20 @@ pub fn run(args: &Args) -> i32 {
       cfg.probe = prop == Prop::C03; cfg.bu_over_report = true; cfg.bu_then = true; cfg.bu_pre = !quick; cfg.max_roots = if quick { 1 } else { 2 };
       if quick { groups[0].depth = 4; }
       // coarse write checkers: only the checker-relative oracles apply there (no from-scratch content comparison)
-      groups.push(Group { enums: vec![cw(2, 2, 4)], depth: 4, shapes: false, gen_consumer_only: true, crashes: 0, inject: false });
-      groups.push(Group { enums: vec![if quick { nw(3, 1, 4) } else { nw(3, 2, 5) }], depth: 4, shapes: false, gen_consumer_only: false, crashes: 0, inject: false });
-      if !quick { groups.push(Group { enums: vec![nw(4, 1, 5)], depth: 4, shapes: false, gen_consumer_only: false, crashes: 0, inject: false }); }
+      groups.push(Group { enums: vec![cw(2, 2, 4)], depth: 4, shapes: false, gen_consumer_only: true, crashes: 0, inject: false, max_roots: None, faulty: false });
+      groups.push(Group { enums: vec![if quick { nw(3, 1, 4) } else { nw(3, 2, 5) }], depth: 4, shapes: false, gen_consumer_only: false, crashes: 0, inject: false, max_roots: None, faulty: false });
+      if !quick { groups.push(Group { enums: vec![nw(4, 1, 5)], depth: 4, shapes: false, gen_consumer_only: false, crashes: 0, inject: false, max_roots: None, faulty: false }); }
+      groups.push(Group { enums: vec![if quick { sf(4, 2) } else { sf(4, 3) }], depth: if quick { 4 } else { 5 }, shapes: false, gen_consumer_only: false, crashes: 0, inject: false, max_roots: Some(2), faulty: false });
+      if !quick { groups[0].depth = 5; groups[1].depth = 4; }
     }
     Prop::C05 | Prop::C06 | Prop::C07 | Prop::C20 => {
       slice = Slice::WfOrViol; crash_group = true;
       if quick { groups[0].depth = 4; }
       // injected violations: one new one-statement task added to every well-formed generator/consumer program
-      groups.push(Group { enums: vec![s(2, 2, if quick { 3 } else { 4 })], depth: 4, shapes: true, gen_consumer_only: true, crashes: 0, inject: true });
+      groups.push(Group { enums: vec![s(2, 2, if quick { 3 } else { 4 })], depth: 4, shapes: true, gen_consumer_only: true, crashes: 0, inject: true, max_roots: None, faulty: false });
       // require-structure family (value-dependent cycles of length up to 3, cycles appearing in later sessions)
       if prop == Prop::C07 || prop == Prop::C20 {
-        groups.push(Group { enums: vec![if quick { nw(3, 1, 4) } else { nw(3, 1, 5) }], depth: 4, shapes: false, gen_consumer_only: false, crashes: 0, inject: false });
+        groups.push(Group { enums: vec![if quick { nw(3, 1, 4) } else { nw(3, 1, 5) }], depth: 4, shapes: false, gen_consumer_only: false, crashes: 0, inject: false, max_roots: None, faulty: false });
       }
     }
     Prop::C08 => {
@@ -221,7 +233,7 @@ pub fn run(args: &Args) -> i32 {
       let mut e = EnumCfg::structural(if quick { 1 } else { 2 }, 1, if quick { 2 } else { 3 });
       e.read_rcs = vec![RC::Exact, RC::Exists];
       e.ocs = vec![OC::Equals, OC::IsZero];
-      groups.push(Group { enums: vec![e], depth: if quick { 5 } else { 6 }, shapes: false, gen_consumer_only: false, crashes: 0, inject: false });
+      groups.push(Group { enums: vec![e], depth: if quick { 5 } else { 6 }, shapes: false, gen_consumer_only: false, crashes: 0, inject: false, max_roots: None, faulty: false });
     }
     Prop::C09 => {
       let mut e = EnumCfg::structural(2, 2, if quick { 2 } else { 3 });
@@ -229,28 +241,44 @@ pub fn run(args: &Args) -> i32 {
       e.read_rcs = vec![RC::Exact, RC::Exists, RC::Always];
       e.write_rcs = vec![RC::Exact, RC::Exists, RC::Always];
       e.write_decl = true;
-      groups.push(Group { enums: vec![e], depth: if quick { 5 } else { 6 }, shapes: false, gen_consumer_only: false, crashes: 0, inject: false });
+      groups.push(Group { enums: vec![e], depth: if quick { 5 } else { 6 }, shapes: false, gen_consumer_only: false, crashes: 0, inject: false, max_roots: None, faulty: false });
     }
     Prop::C18 => { cfg.set_fail = true; map_faulty = true; }
     Prop::C19 => {
-      slice = Slice::WfOrPanic;
-      cfg.crashes = if quick { 1 } else { 2 };
+      slice = Slice::WfOrViolOrPanic;
+      let ncr = if quick { 1 } else { 2 };
       let mut e = EnumCfg::structural(2, 1, if quick { 3 } else { 4 });
       e.panic_op = true;
+      let g = |enums: Vec<EnumCfg>, depth: usize, shapes: bool, crashes: usize| Group { enums, depth, shapes, gen_consumer_only: false, crashes, inject: false, max_roots: None, faulty: false };
       groups = if quick {
-        vec![Group { enums: vec![s(2, 2, 3), e], depth: 4, shapes: true, gen_consumer_only: false, crashes: 0, inject: false }]
+        vec![
+          // every crash point of every build transition (+ program panics + diagnosed aborts), follow-ups to depth 4
+          g(vec![s(2, 2, 3), e], 4, true, ncr),
+          // aborts that pie diagnoses itself (violating programs) and program panics need no decoration: deeper follow-ups
+          g(vec![s(2, 1, 3)], 6, false, 0),
+        ]
       } else {
-        vec![Group { enums: vec![s(2, 2, 3), e], depth: 5, shapes: true, gen_consumer_only: false, crashes: 0, inject: false }, Group { enums: vec![s(3, 2, 3)], depth: 4, shapes: false, gen_consumer_only: false, crashes: 0, inject: false }]
+        vec![g(vec![s(2, 2, 3), e], 5, true, ncr), g(vec![s(3, 2, 3)], 4, false, ncr), g(vec![s(2, 1, 4), s(2, 2, 3)], 7, false, 0)]
       };
     }
-    Prop::C16 => { cfg.collect_digests = true; slice = Slice::WfOrViol; cfg.bu_then = true; if quick { groups.truncate(2); groups[0].depth = 4; groups[1].depth = 3; } }
-    Prop::C17 => { slice = Slice::WfOrViol; cfg.bu_then = true; crate::runner::set_helper_mode_global(true); if quick { groups.truncate(2); groups[0].depth = 4; groups[1].depth = 3; } else { groups[0].depth = 5; groups[1].depth = 4; } }
+    Prop::C16 => {
+      cfg.collect_digests = true; slice = Slice::WfOrViol; cfg.bu_then = true;
+      if quick { groups.truncate(2); groups[0].depth = 4; groups[1].depth = 3; }
+      // queue order with several scheduled tasks (the order must come from topological ranks, not from set iteration)
+      groups.push(Group { enums: vec![if quick { sf(4, 2) } else { sf(4, 3) }], depth: if quick { 3 } else { 4 }, shapes: false, gen_consumer_only: false, crashes: 0, inject: false, max_roots: Some(2), faulty: false });
+    }
+    Prop::C17 => { slice = Slice::WfOrViol; cfg.bu_then = true; crate::runner::set_helper_mode_global(true);
+      cfg.set_fail = true;
+      if quick { groups.truncate(2); groups[0].depth = 4; groups[1].depth = 3; } else { groups[0].depth = 5; groups[1].depth = 4; }
+      // failing checkers: start/end discipline around dependency checks that return an error
+      groups.push(Group { enums: vec![s(2, 2, if quick { 2 } else { 3 })], depth: 4, shapes: true, gen_consumer_only: false, crashes: 0, inject: false, max_roots: None, faulty: true });
+    }
     _ => {}
   }
   if crash_group {
     // Histories with one aborted build (crash decoration at every crash point) over the smallest programs: what was
     // built before on the instance includes builds that did not finish.
-    groups.push(Group { enums: vec![s(2, 2, if quick { 2 } else { 3 })], depth: if quick { 4 } else { 5 }, shapes: true, gen_consumer_only: false, crashes: 1, inject: false });
+    groups.push(Group { enums: vec![s(2, 2, if quick { 2 } else { 3 })], depth: if quick { 4 } else { 5 }, shapes: true, gen_consumer_only: false, crashes: 1, inject: false, max_roots: None, faulty: false });
   }
   // Experiment overrides (not used by the registered commands).
   if let Ok(e) = std::env::var("VERIF_GROUPS") {
@@ -258,7 +286,7 @@ pub fn run(args: &Args) -> i32 {
     let base = groups[0].enums[0].clone();
     groups = e.split(';').filter_map(|g| {
       let (d, en) = g.split_once(':')?;
-      Some(Group { enums: en.split('+').filter_map(|t| parse_enum(&base, t)).collect(), depth: d.parse().ok()?, shapes: true, gen_consumer_only: false, crashes: 0, inject: false })
+      Some(Group { enums: en.split('+').filter_map(|t| parse_enum(&base, t)).collect(), depth: d.parse().ok()?, shapes: true, gen_consumer_only: false, crashes: 0, inject: false, max_roots: None, faulty: false })
     }).collect();
   }
   if let Ok(w) = std::env::var("VERIF_WALL") { if let Ok(w) = w.parse() { cfg.wall_cap = w; } }
@@ -276,9 +304,9 @@ pub fn run(args: &Args) -> i32 {
       programs_for(&g.enums, slice, g.shapes, &gfilter)
     };
     // a program explored in an earlier (deeper) group is not explored again
-    if g.crashes == 0 { programs.retain(|(p, _)| !all_programs.iter().any(|(q, _)| q == p)); }
-    if map_faulty {
-      // C18: every resource dependency uses the error-injecting checker (= Exact while its failure flag is clear).
+    if g.crashes == 0 && !g.faulty { programs.retain(|(p, _)| !all_programs.iter().any(|(q, _)| q == p)); }
+    if map_faulty || g.faulty {
+      // C18 (and one group of C17): every resource dependency uses the error-injecting checker (= Exact while its failure flag is clear).
       for (p, _) in programs.iter_mut() {
         for st in p.bodies.iter_mut().flatten() {
           st.op = match st.op {
@@ -293,28 +321,31 @@ pub fn run(args: &Args) -> i32 {
     let mut gcfg = cfg.clone();
     gcfg.depth = g.depth;
     if g.crashes > 0 { gcfg.crashes = g.crashes; }
+    if let Some(m) = g.max_roots { gcfg.max_roots = m; }
     let gstart = std::time::Instant::now();
     gcfg.wall_cap = (cfg.wall_cap - started.elapsed().as_secs_f64()).max(1.0);
     let gs = run_programs(&mut rep, &gcfg, programs.clone(), threads());
     group_desc.push(json!({
       "enumerations": g.enums.iter().map(|c| c.describe()).collect::<Vec<_>>(), "shape_programs": g.shapes, "history_depth": g.depth,
-      "only_generator_consumer_programs": g.gen_consumer_only, "one_statement_task_injected_into_each": g.inject, "crashes_per_history": gcfg.crashes, "wall_s": gstart.elapsed().as_secs_f64(),
+      "only_generator_consumer_programs": g.gen_consumer_only, "one_statement_task_injected_into_each": g.inject, "crashes_per_history": gcfg.crashes, "max_roots_per_session": gcfg.max_roots, "wall_s": gstart.elapsed().as_secs_f64(),
       "programs": gs.programs, "states": gs.states, "transitions": gs.transitions,
       "programs_to_fixed_point": gs.fixed_point_programs, "programs_cut_at_depth": gs.depth_capped_programs, "wall_cap_hit": gs.wall_capped,
     }));
     stats.merge(&gs);
-    if g.crashes == 0 { all_programs.extend(programs); }
+    if g.crashes == 0 && !g.faulty { all_programs.extend(programs); }
   }
   cfg.depth = groups.iter().map(|g| g.depth).max().unwrap_or(0);
   // C16, child mode: only write the per-history digests for the parent to compare.
   if let Some(file) = child_file {
     stats.digests.sort();
-    let mut bytes = Vec::with_capacity(stats.digests.len() * 24);
+    let mut bytes = Vec::with_capacity(stats.digests.len() * 24 + 24);
+    // header record: (0, 0, 1 if the wall cap was hit)
+    bytes.extend_from_slice(&0u64.to_le_bytes()); bytes.extend_from_slice(&0u64.to_le_bytes()); bytes.extend_from_slice(&(stats.wall_capped as u64).to_le_bytes());
     for (a, b, c) in &stats.digests { bytes.extend_from_slice(&a.to_le_bytes()); bytes.extend_from_slice(&b.to_le_bytes()); bytes.extend_from_slice(&c.to_le_bytes()); }
     std::fs::write(&file, bytes).unwrap_or_else(|e| engine_error(&format!("cannot write {}: {}", file, e)));
-    return if stats.wall_capped { 3 } else { 0 };
+    return 0;
   }
-  if prop == Prop::C16 { c16_cross_process(args, &mut rep, &mut stats, &all_programs); }
+  if prop == Prop::C16 { c16_cross_process(args, &mut rep, &mut stats, &all_programs, &cfg); }
   let rule = format!(
     "programs: all canonical programs (modulo task/resource renaming, dead and redundant guards removed) of the interpreted task language for each enumeration listed under bounds.groups, plus the named shape programs, restricted to slice {:?} as classified by the from-scratch reference model M1; per program a breadth-first search over events (Set(r,v) for every resource and value, TopDown(1..{} distinct roots), BottomUp(reported ⊇ dirty, then/pre roots as in bounds){}{}) on the REAL Pie, every path re-executed on a fresh instance, states deduplicated on the exact store dump + cells + scope bookkeeping; every transition is judged by the oracles of {} only; a step trace is distinct by its digest",
     slice, cfg.max_roots, if cfg.set_fail { ", SetFail(r,b)" } else { "" }, if cfg.crashes > 0 { ", crash decoration at every crash point of every build" } else { "" }, prop.name());
@@ -344,7 +375,7 @@ fn replay(args: &Args, prop: Prop, file: &std::path::Path, mut rep: Report) -> i
   let class = classify(&prog);
   let cfg = HistCfg {
     prop, max_roots: 3, bottom_up: true, bu_then: true, bu_pre: true, bu_over_report: true, set_fail: true, crashes: 2, depth: path.len(),
-    state_cap: 0, probe: prop == Prop::C03, scope_in_key: true, wall_cap: 60.0, collect_digests: false,
+    state_cap: 0, probe: prop == Prop::C03, scope_in_key: true, wall_cap: 60.0, collect_digests: false, find_path_hash: None,
   };
   install();
   let crashes = path.iter().filter(|p| p.crash_at.is_some()).count();
@@ -378,7 +409,7 @@ fn install() { crate::runner::install_panic_hook(); }
 
 /// C16: the same bounded exploration in a second process (fresh hash seeds, fresh address space); every history's
 /// step digest must agree pairwise.
-fn c16_cross_process(args: &Args, rep: &mut Report, stats: &mut Stats, programs: &[(Prog, Class)]) {
+fn c16_cross_process(args: &Args, rep: &mut Report, stats: &mut Stats, programs: &[(Prog, Class)], cfg: &HistCfg) {
   let _ = std::fs::create_dir_all(format!("{}/tmp", crate::common::verif_dir()));
   let file = format!("{}/tmp/c16-{}.bin", crate::common::verif_dir(), std::process::id());
   let exe = std::env::current_exe().unwrap_or_else(|e| engine_error(&format!("current_exe: {}", e)));
@@ -393,11 +424,14 @@ fn c16_cross_process(args: &Args, rep: &mut Report, stats: &mut Stats, programs:
   for ch in bytes.chunks_exact(24) {
     other.push((u64::from_le_bytes(ch[0..8].try_into().unwrap()), u64::from_le_bytes(ch[8..16].try_into().unwrap()), u64::from_le_bytes(ch[16..24].try_into().unwrap())));
   }
+  // first record is the header
+  let other_capped = other.first().map(|h| h.2 == 1).unwrap_or(false);
+  if !other.is_empty() { other.remove(0); }
   stats.digests.sort();
   let mine = &stats.digests;
   let mut compared = 0usize;
   let mut mismatches = 0usize;
-  if mine.len() != other.len() && !stats.wall_capped {
+  if mine.len() != other.len() && !stats.wall_capped && !other_capped {
     rep.violation(Violation { property: "C16".into(), oracle: "C16/cross-process-history-set".into(), key: String::new(),
       what: format!("the two processes explored different numbers of histories: {} vs {}", mine.len(), other.len()), replay: json!({"engine": "hist", "note": "set difference"}) });
   }
@@ -409,15 +443,31 @@ fn c16_cross_process(args: &Args, rep: &mut Report, stats: &mut Stats, programs:
         mismatches += 1;
         if mismatches <= 3 {
           use std::hash::{Hash, Hasher};
-          let prog = programs.iter().find(|(p, _)| { let mut h = Fnv::default(); p.hash(&mut h); h.finish() == *a }).map(|(p, _)| p.clone());
+          let found = programs.iter().find(|(p, _)| { let mut h = Fnv::default(); p.hash(&mut h); h.finish() == *a }).cloned();
+          let prog = found.as_ref().map(|(p, _)| p.clone());
+          // Re-derive the history from its hash by exploring that one program again.
+          let mut history: Option<Vec<PEvent>> = None;
+          if let Some((p, cl)) = &found {
+            let mut fcfg = cfg.clone();
+            fcfg.find_path_hash = Some(*b);
+            fcfg.wall_cap = 120.0;
+            let mut st = Stats::default();
+            let deadline = std::time::Instant::now() + std::time::Duration::from_secs(120);
+            crate::hist::explore_program(p, *cl, &fcfg, &mut st, deadline, &mut |_| {}, &|_| false);
+            history = st.found_path;
+          }
           rep.violation(Violation { property: "C16".into(), oracle: "C16/cross-process-digest".into(), key: String::new(),
             what: format!("a history produced different event sequences in two processes (history hash {:016x})", b),
-            replay: json!({"engine": "hist", "program": prog.as_ref().map(|p| p.to_json()), "program_short": prog.as_ref().map(|p| p.short()), "history_hash": format!("{:016x}", b)}) });
+            replay: json!({"engine": "hist", "program": prog.as_ref().map(|p| p.to_json()), "program_short": prog.as_ref().map(|p| p.short()), "history_hash": format!("{:016x}", b),
+              "history": history.as_ref().map(|h| path_json(h)), "history_short": history.as_ref().map(|h| path_strings(h)),
+              "note": "replaying this history twice in one process may agree; the divergence was observed between two processes (run the C16 check again)"}) });
         }
       }
     }
   }
   rep.set("cross_process_histories_compared", json!(compared));
   rep.set("cross_process_mismatches", json!(mismatches));
+  rep.set("second_process_wall_cap_hit", json!(other_capped));
+  if other_capped { stats.wall_capped = true; }
   rep.set("min_independent_executions_per_history", json!(2));
 }
